@@ -62,6 +62,12 @@ def run(ck):
     fragments_reach_second_pass(ck, "C03.10")
     ck.clause("C03.11", "labels and pairs are ordered by coordinate, never by label number (which descends on the reverse strand): the "
                         "overlap tests of conflict resolution see a query-axis overlap on both strands (as C15.7 / C11.6)")
+    from .c02 import records_frozen
+    records_frozen(ck, "C03.15")
+    ck.clause("C03.16", "only neighbours in a chain can overlap (as C14.2): a join of two segments that overlap by more than half of the "
+                        "shorter one is inadmissible, so the pairwise pass leaves no label listed twice for the HitEnum walk to trip over")
+    from . import c14 as _c14
+    _c14.join_score(RuleView(ck, {"C14.2": "C03.16"}))
     from .c15 import comparators
     from .c11 import position_order
     comparators(ck, "C03.11")
